@@ -109,6 +109,7 @@ class _Touch(ast.NodeVisitor):
         self.S, self.view_names = S, view_names
         self.views = []        # in source order, first occurrence
         self.rraw, self.wraw = [], []
+        self.hdr_loads, self.hdr_stores = [], []   # [(lump, field)] header fields of lumps (version, flags)
         self.pops, self.sets = [], []   # [(key)] constant keys popped / stored by subscript on objects
         self.derived = {}      # local name -> view it was derived from
         self.seen = set()
@@ -123,19 +124,26 @@ class _Touch(ast.NodeVisitor):
         if x not in lst:
             lst.append(x)
 
-    def _raw_target(self, node):
-        """node is `<self.lumps|self.game_lumps>[K].data` -> lump id, else None."""
-        if isinstance(node, ast.Attribute) and node.attr == 'data' and isinstance(node.value, ast.Subscript):
+    def _lump_field(self, node):
+        """node is `<self.lumps|self.game_lumps>[K].<field>` -> (lump id, field), else None."""
+        if isinstance(node, ast.Attribute) and isinstance(node.value, ast.Subscript):
             sub = node.value
             if isinstance(sub.value, ast.Attribute) and isinstance(sub.value.value, ast.Name) \
                     and sub.value.value.id == 'self' and sub.value.attr in ('lumps', 'game_lumps'):
-                return self.S.lump_id(sub.slice)
+                return self.S.lump_id(sub.slice), node.attr
         return None
 
     def visit_Attribute(self, node):
-        raw = self._raw_target(node)
-        if raw is not None:
-            self._add(self.wraw if isinstance(node.ctx, (ast.Store, ast.Del)) else self.rraw, raw)
+        lf = self._lump_field(node)
+        if lf is not None:
+            lump, field = lf
+            store = isinstance(node.ctx, (ast.Store, ast.Del))
+            if field == 'data':
+                self._add(self.wraw if store else self.rraw, lump)
+            else:
+                # header fields of a lump (version, flags, is_compressed)
+                self._add(self.hdr_stores if store else self.hdr_loads, (lump, field))
+            self.visit(node.value.slice)
             return
         if isinstance(node.value, ast.Name) and node.value.id == 'self':
             if node.attr in self.view_names:
@@ -146,7 +154,7 @@ class _Touch(ast.NodeVisitor):
                 self.run(self.S.funcs[node.attr])
             elif node.attr in ('lumps', 'game_lumps'):
                 # any other use of the raw lump tables (iteration, get_lump(...)) is not understood
-                raise ExtractError(f'self.{node.attr} used other than as self.{node.attr}[K].data (line {node.lineno})')
+                raise ExtractError(f'self.{node.attr} used other than as self.{node.attr}[K].<field> (line {node.lineno})')
         self.generic_visit(node)
 
     # --- keys removed from / put back into objects of another view (bmodels <-> ents) -------
@@ -311,6 +319,7 @@ def extract_c10(S):
             'rstores': [l for l in r.wraw],   # raw lumps a *reader* assigns (texinfo clears TEXDATA itself)
             'borrows': borrows, 'restores': restores,
             'popkeys': [k for (_, k) in r.pops],
+            'hdr_stores': [(l, f, 0) for (l, f) in r.hdr_stores] + [(l, f, 1) for (l, f) in w.hdr_stores],
         })
     return {'views': out, 'order': order, 'write_order': worder}
 
@@ -344,6 +353,10 @@ def section_c10(S):
     L.append('/-- raw lumps assigned inside a *reader* (must be lumps the view clears anyway): (view, lump). -/')
     L.append('def readerStores : List (Nat × Nat) := [' + ', '.join(
         f'({i}, {l})' for i, v in enumerate(d['views']) for l in v['rstores']) + ']')
+    L.append('')
+    L.append('/-- lump header fields (version, flags, ...) assigned inside a reader (0) or writer (1): (view, lump, where, field). -/')
+    L.append('def headerStores : List (Nat × Nat × Nat × String) := [' + ', '.join(
+        f'({i}, {l}, {k}, {lean_string(f)})' for i, v in enumerate(d['views']) for (l, f, k) in v['hdr_stores']) + ']')
     L.append('')
     L.append('/-- game-lump ids used as ParsedLump keys: lump id 64+i. -/')
     L.append('def gameLumpIds : List String := [' + ', '.join(lean_string(b.decode('latin-1')) for b in S.game_ids) + ']')
